@@ -200,6 +200,21 @@ def run(tier, seed, work, replay):
                     nip += 1
             extra.append(t2)
     traces = traces + extra
+    # ... and every behaviour with a hardware-token step once more with the token asked through the WebAuthn login API
+    # (begin / finish of /webauthn/Auth*): the same challenge store, the same token, another protocol encoding
+    extra = []
+    nwa = 0
+    for t in traces:
+        if any(st["name"] in ("U2FBegin", "U2FFinish") for st in t["steps"]):
+            t2 = copy.deepcopy(t)
+            t2["origin"] = t["origin"] + "+webauthn"
+            for st in t2["steps"]:
+                if st["name"] in ("U2FBegin", "U2FFinish"):
+                    st["args"]["flavour"] = "webauthn"
+                    nwa += 1
+            extra.append(t2)
+    traces = traces + extra
+    cov["steps_through_webauthn_login"] = nwa
     # two more refinements below the specification's grain, applied to every behaviour that has a second-factor step
     # carrying a session cookie: (a) a decoy - another browser's session cookie sent under the same name BEFORE the real
     # one (the specification ignores it: the request is the last cookie's); (b) the profile store refusing writes
@@ -252,7 +267,11 @@ def run(tier, seed, work, replay):
         if e["ev"] not in ("Login", "Reset") and e["out"]["set"]["u"] != "none":
             ga[e["ev"]] = ga.get(e["ev"], 0) + 1
     cov["upgrades_granted_by_action"] = ga
+    cov["webauthn_finishes_granted"] = sum(1 for e in evs if e["ev"] == "U2FFinish" and e["args"].get("flavour") == "webauthn"
+                                           and e["out"]["set"]["u"] != "none")
     dead = [a for a in ("VipOTP", "PushPoll", "Totp", "U2FFinish", "BotpUse", "CliSend", "OktaPoll", "OktaOTP") if not ga.get(a)]
+    if not cov["webauthn_finishes_granted"]:
+        dead.append("U2FFinish through WebAuthn")
     if dead:
         raise E.Inconclusive("actions never granted in any behaviour (dead driver): %s" % dead)
     cov["rule"] = ("behaviours = TLC simulation of the request generator (2 of 3 steps granted, the third any attempt incl. "
